@@ -91,6 +91,12 @@ def vocabulary():
     add("if-no-scope", g.if_(g.binop("==", I("xx"), L(1)), g.decl("yy", L(77)), g.decl("yy", L(78))), ["yy"])
     add("seq-value", P(g.seq([L(1), L(2)]), g.seq([L(1), L(2)], semi=True)), [])
     add("top-level-break", g.brk(0, L(3)), [])
+    add("switch-bind-scope", g.seq([g.switch(g.lst([L(1), I("xx")]), [(g.lv_tuple([g.lv_lit(1), g.lv_lit(2)]), P(L("a"))),
+                                                                    (g.lv_tuple([g.lv_lit(1), g.lv_id("ww")]), g.asg(T("xx"), g.binop("+", I("ww"), L(10))))]),
+                                    P(I("ww"))]), ["xx"])
+    add("switch-literally-nocase", P(g.switch(L(2), [(g.lv_lity(I("xx")), L("same")), (g.lv_lit(1), L("one"))])), [])
+    add("switch-break", P(g.for_do([g.cl_it(g.lv_id("aa"), g.lst([L(1), L(2), L(3)]))],
+                                   g.switch(I("aa"), [(g.lv_lit(2), g.brk(0, L("two"))), (g.LV_IGNORE, P(I("aa")))]))), [])
     add("eval-declares-here", g.seq([g.evl(g.decl("ev", g.binop("+", I("xx"), L(1)))), P(I("ev"))]), [])
     add("eval-in-call-scope", P(g.call(g.lam([g.param("xx")], g.evl(g.binop("+", I("xx"), L(1)))), [L(40)])), [])
     add("eval-break", P(g.for_do([g.cl_it(g.lv_id("aa"), g.lst([L(1), L(2), L(3)]))], g.evl(g.if_(g.binop("==", I("aa"), L(2)), g.brk(0, I("aa")))))), [])
